@@ -12,13 +12,16 @@ def dotted : Bytes → String
   | [a, b, c, d] => toString a.toNat ++ "." ++ toString b.toNat ++ "." ++ toString c.toNat ++ "." ++ toString d.toNat
   | _ => "?"
 
+/-- two's complement of a (small) integer in 64 bits, without big-number arithmetic -/
+def i64bits (i : Int) : UInt64 := if i ≥ 0 then i.toNat.toUInt64 else 0 - ((-i).toNat.toUInt64)
+
 /-- the observable as one 64-bit number (signed values in two's complement) -/
 def Value.obsNum : Value → UInt64
   | .unsigned32 v => v.toUInt64
-  | .integer32 v => (toI32 v % 18446744073709551616).toNat.toUInt64
-  | .enumerated v => (toI32 v % 18446744073709551616).toNat.toUInt64
+  | .integer32 v => i64bits (toI32 v)
+  | .enumerated v => i64bits (toI32 v)
   | .float32 v => v.toUInt64
-  | .time s _ => (s % 18446744073709551616).toNat.toUInt64
+  | .time s _ => i64bits s
   | .ipv4 b => (fromBe b).toUInt64
   | .unsigned64 v => v
   | .integer64 v => v
